@@ -195,7 +195,10 @@ func compareClusterQueries(e *Env, c *Cluster, d *Node, sqls []string, sig strin
 			if !l.Up {
 				continue
 			}
-			if c.p.Cfg.Extra["qlat"] > 0 || c.Real {
+			if c.p.Cfg.Extra["qlat"] > 0 || c.Real || c.p.Prop == "C12" {
+				// (C12: how long convergence took depends on the order in which
+				// same-instant deliveries happened to run; the queries that follow
+				// must not depend on that instant)
 				// followers plan the query text when it reaches them: with
 				// latency the comparison is only defined while no period
 				// boundary passes, so start just after one (resolutions divide
